@@ -292,6 +292,7 @@ pub fn run(ctx: &Ctx, rep: &mut Report) {
     let norm = ["./x", "x/", " x", "x ", "X", "x/../y", "a//b", "./", "/", "~", "~/x", "e\u{301}", "\u{e9}", ".", "..", "x.", "-x", "+x", "x\ty", "%2f", "&amp;", "x;", "$HOME", "`x`", "a b",
         // placeholder spellings of common templating schemes (a skeleton filled by textual replacement
         // would rewrite user text that happens to spell a placeholder)
+        "/dev/stdout", "/dev/stderr", "/dev/null", "-", "stdout", "/dev/fd/1", "/proc/self/fd/1", "CON", "NUL",
         "{}", "{0}", "{1}", "{mdt}", "{device}", "{path}", "{policy}", "{policy_body}", "{body}", "{options}", "{threads}", "{modules}", "{definitions}", "{initialization}", "{init}", "{terminate}", "{{mdt}}", "${mdt}", "$mdt", "%(mdt)s", "@mdt@", "%s", "$1", "\\1", "<mdt>", "[mdt]",
     ];
     par_cases(ctx, "norm", (norm.len() * SITES.len()) as u64, rep, |i, rep| {
